@@ -32,7 +32,7 @@ RULE = ('10 of 16 cases: one machine of a predefined class (all 12, round-robin;
         'cases with one object listed twice; histories of 4-16 operations: add_model of one model (registered = '
         '"twice", never added, removed; initial None / a registered state / [Machine, LockedMachine only] an '
         'unregistered state) or ONE add_model call with a list of 2-4 models in which objects may repeat, '
-        'remove_model (registered), add_states, add_transition, trigger (event method or trigger(name); registered, '
+        'remove_model (registered), add_states, add_transition, remove_transition (35% of the well-formed cases, which then contain no remove_model: all transitions of a trigger, or those from one source / to one destination; a trigger that was emptied is usually declared again later, with models added before and after), trigger (event method or trigger(name); registered, '
         'removed and never-added objects; known, not-yet-added and unknown events), dispatch. Callbacks are given by '
         'name so that each object has its own recorder. Sync classes: condition values by position/callback and one '
         'raising callback position in 15% of the cases; async classes: non-raising, at most one condition per '
@@ -69,11 +69,14 @@ ASSUMPTIONS = ['remove_model is only called for registered models (an unregister
                'state features: Timeout is not modelled (C17); its per-model timers and Retry\'s per-model counters are '
                'checked on the implementation by the extra check features_interleaved_equals_solo (every model\'s outcome '
                'in an interleaved history = its solo run; a model in a timeout state owns a live timer)',
+               'remove_transition is only called for declared triggers (an unknown one raises KeyError in core.py) and not in '
+               'histories with remove_model (an unregistered object keeps <trigger> bound to the deleted Event object, '
+               'also through a later add_model — _checked_assignment skips the existing attribute)',
                'garbage collection: the theorem is "no table keeps the key"; the collector is assumed and checked with '
                'weakref + gc.collect() on every class and queue mode, on the original machine, on a pickle round trip and on '
                'a deep copy of it (extra check gc_after_remove)',
                'Python runtime semantics of the recording callables']
-THEOREMS = ['C10_invariant', 'C10_frame', 'C10_dispatch', 'C10_late_model', 'C10_late_model_names', 'C10_add_twice', 'C10_add_twice_list', 'C10_in_call_repetition', 'C10_removed_list_pending', 'C10_copy', 'C10_features_per_model', 'C10_own_initial', 'C10_own_initial_once',
+THEOREMS = ['C10_invariant', 'C10_frame', 'C10_dispatch', 'C10_late_model', 'C10_late_model_names', 'C10_trigger_rebound', 'C10_add_twice', 'C10_add_twice_list', 'C10_in_call_repetition', 'C10_removed_list_pending', 'C10_copy', 'C10_features_per_model', 'C10_own_initial', 'C10_own_initial_once',
             'C10_graph_readd_raises', 'C10_graph_readd_example',
             'C10_removed_tables', 'C10_removed', 'C10_removed_graph_key_refuted', 'C10_two_machines',
             'C10_two_machines_hsm_refuted', 'C10_example']
@@ -174,6 +177,16 @@ def gen(rng, i, tier):
     ci = 0
     tok = 100
     copied = False     # graph classes: a copy has no graph for removed models, their stale helpers raise KeyError
+    # remove_transition cases: no remove_model in them (a model that is unregistered while an event is deleted keeps
+    # its <event> attribute bound to the deleted Event object, also through a later add_model)
+    rt = (not malformed) and rng.random() < 0.35
+    cur = {}           # event -> transitions currently declared
+    for e_, t_ in ctor_trans:
+        cur.setdefault(e_, []).append(t_)
+    readd = []         # transitions of emptied events, to be declared again
+
+    def keep(t_, src_, dst_):
+        return (src_ is not None and t_['src'] != src_) or (dst_ is not None and t_['dst'] != dst_)
     for sl in slots:
         if sl == 'cfg':
             o = cfg[ci]
@@ -182,10 +195,36 @@ def gen(rng, i, tier):
                 known_states.add(o[1])
             else:
                 known_events.add(o[1])
+                cur.setdefault(o[1], []).append(o[2])
             hist.append(o)
             continue
         x = rng.random()
         tok += 1
+        if rt and readd and rng.random() < 0.5:
+            e_, t_ = readd.pop(0)
+            hist.append(['trans', e_, copy.deepcopy(t_)])
+            known_events.add(e_)
+            cur.setdefault(e_, []).append(t_)
+        if rt and known_events and rng.random() < 0.25:
+            e_ = rng.choice(sorted(known_events))
+            y = rng.random()
+            src_, dst_ = None, None
+            if y > 0.55:
+                t_ = rng.choice(cur[e_])
+                if y < 0.8:
+                    src_ = t_['src']
+                else:
+                    dst_ = t_['dst'] if t_['dst'] is not None else rng.choice(sorted(known_states))
+            left = [t_ for t_ in cur[e_] if keep(t_, src_, dst_)]
+            hist.append(['remove_trans', e_, src_, dst_])
+            if not left:
+                known_events.discard(e_)
+                if rng.random() < 0.8:
+                    readd.append((e_, rng.choice(cur[e_])))
+                cur[e_] = []
+            else:
+                cur[e_] = left
+            continue
         if x < 0.42:
             if reg and rng.random() < 0.8 or queued == 'model' or (gr and copied):
                 if not reg:
@@ -259,11 +298,13 @@ def gen(rng, i, tier):
             hist.append(['copy', rng.randrange(2)])
             copied = True
         else:
-            if not reg:
+            if not reg or rt:
                 continue
             mm = rng.choice(reg)
             reg.remove(mm)
             hist.append(['remove_model', mm])
+    for e_, t_ in readd:
+        hist.append(['trans', e_, copy.deepcopy(t_)])
     m0 = dict(m)
     m0['states'] = [(s, d) for s, d in m['states'] if s not in held_states]
     m0['events'] = []
@@ -421,6 +462,8 @@ def enc_op(o):
         return [4, o[1], bool(o[2]), o[3], o[4]]
     if k == 'copy':
         return [7]
+    if k == 'remove_trans':
+        return [8, o[1], opt(o[2]), opt(o[3])]
     return [5, o[1], o[2]]
 
 
@@ -748,6 +791,9 @@ def _impl_multi(case):
                 r = machine.add_states(state_kw(o[1], o[2]))
                 if self_id is not None:
                     install(machine)
+            elif k == 'remove_trans':
+                r = machine.remove_transition('e%d' % o[1], source='*' if o[2] is None else 's%d' % o[2],
+                                              dest='*' if o[3] is None else 's%d' % o[3])
             elif k == 'trans':
                 r = machine.add_transition(**trans_kw(o[1], o[2]))
                 if self_id is not None:
